@@ -20,6 +20,7 @@ def dispatch (stream payload : String) : String × String × String :=
   if ["hist", "histx", "capx", "nest", "pol", "xfer", "awk"].contains stream then runHist payload
   else if stream == "render" then runRender payload
   else if stream == "strunit" then runStrUnit payload
+  else if stream == "rerender" then runRerender payload
   else if stream == "condhist" then runCondHist payload
   else if stream == "roundtrip" then runRoundtrip payload
   else if stream == "anytrees" then runAnyTrees payload
